@@ -60,8 +60,18 @@ func clCollectorGuard(c *Ctx) {
 	slDeleteNode := p.Func("skiplist", "Skiplist", "DeleteNode")
 	slDelete := p.Func("skiplist", "Skiplist", "Delete")
 
-	isLast := func(v ssa.Value) bool {
+	var isLast func(v ssa.Value) bool
+	isLast = func(v ssa.Value) bool {
 		v = strip(v)
+		// a local copy tracking the last collected number across iterations
+		if ph, ok := v.(*ssa.Phi); ok {
+			for _, e := range ph.Edges {
+				if !(loadsField(fSn)(e) || (strip(e) != ssa.Value(ph) && isLast(e))) {
+					return false
+				}
+			}
+			return true
+		}
 		if call, ok := v.(*ssa.Call); ok {
 			if p.CallsAny(call, getLast) {
 				return true
